@@ -79,7 +79,7 @@ pub fn case_strategy(lim: Limits) -> BoxedStrategy<Case> {
         (any::<u8>(), any::<u64>()),
         prop_oneof![3 => Just(vec![]), 2 => prop::collection::vec(edit_strategy(), 1..=3)],
         (randkind(), randkind(), randkind(), gadgetq()),
-        (1usize..=8, any::<u64>(), 0u8..3, crate::c02::valsel()),
+        (prop_oneof![20 => 1usize..=8, 2 => 9usize..=64, 1 => 250usize..=520], any::<u64>(), 0u8..3, crate::c02::valsel()),
     )
         .prop_map(|(inst, (sel, ms), edits, (prove, joint, query, gadget_q), (n_shares, share_seed, share_pattern, delta))| {
             let base = meas_from(&inst, sel, ms);
@@ -478,6 +478,9 @@ impl<'a> TypeVisitor for Run<'a> {
         if n >= 4 {
             obs.label("shares>=4");
         }
+        if n >= 256 {
+            obs.label("shares>=256");
+        }
 
         // ---- (g) every proof position altered by a non-zero delta ⇒ rejected (valid input,
         // uniform verifier randomness)
@@ -520,7 +523,7 @@ impl Check for C05 {
     type Case = Case;
     const ID: &'static str = "C05";
     fn rule(&self) -> String {
-        "proptest-generated (circuit instance on the parameter lattice over Field64/Field128, valid input incl. alternative valid bit patterns or invalid input built by edits, prover/joint/query randomness from {uniform, zeros, ones, −1, all-equal}, gadget query point from {uniform, 0, 1, −1, ω^j of the wire-polynomial domain, odd powers of the next-order root}, 1..8 shares with random / zero / degenerate sharings). Clause-by-clause oracle: declared lengths, wrong-length arguments ⇒ Err, valid() zero on valid inputs, completeness for every non-root randomness, soundness under uniform randomness (3 re-tests), Σ query(shares, n) = query(whole, 1), domain roots refused and non-roots served, every proof position +δ rejected. Non-trivial = root-of-unity point, degenerate randomness, ≥4 shares or partial last chunk; distinct by case hash".into()
+        "proptest-generated (circuit instance on the parameter lattice over Field64/Field128, valid input incl. alternative valid bit patterns or invalid input built by edits, prover/joint/query randomness from {uniform, zeros, ones, −1, all-equal}, gadget query point from {uniform, 0, 1, −1, ω^j of the wire-polynomial domain, odd powers of the next-order root}, 1..8 (sometimes 9..64 or 250..520) shares with random / zero / degenerate sharings). Clause-by-clause oracle: declared lengths, wrong-length arguments ⇒ Err, valid() zero on valid inputs, completeness for every non-root randomness, soundness under uniform randomness (3 re-tests), Σ query(shares, n) = query(whole, 1), domain roots refused and non-roots served, every proof position +δ rejected. Non-trivial = root-of-unity point, degenerate randomness, ≥4 shares or partial last chunk; distinct by case hash".into()
     }
     fn strategy(&self, tier: Tier) -> BoxedStrategy<Case> {
         let mut lim = Limits::small();
